@@ -431,7 +431,8 @@ def rule_attach(ctx):
 
 # 'exactly one update is published (if the property is enabled)' needs the disabled-property and None-dropping rules;
 # a client write reaches the elements of a disabled property too (C06.KEY has a disabled property in its world)
-IMPORTS = [('C07', 'C07.DISABLED'), ('C07', 'C07.BRANCH'), ('C06', 'C06.KEY')]
+# plain handlers run before any state changes, a vetoed write changes nothing: decided on constructed switch vectors
+IMPORTS = [('C07', 'C07.DISABLED'), ('C07', 'C07.BRANCH'), ('C06', 'C06.KEY'), ('C09', 'C09.VETO')]
 
 RULES = [
     ("C14.WRITE", rule_write, "set_value: one Write(self, value) raised before any store; assignment iff not vetoed"),
